@@ -79,6 +79,8 @@ pub struct Prov<'u> {
     pub mask: u8,
     pub sort_cb: SortCallback,
     pub hint_override: Option<Hint>,
+    /// per-package override: bit n set = package n answers All, clear = None
+    pub hint_mask: Option<u64>,
     /// use the trait's default `should_cancel_with_value` semantics (never look at polls)
     pub logging: bool,
 }
@@ -94,6 +96,7 @@ impl<'u> Prov<'u> {
             mask: 0,
             sort_cb: SortCallback::None,
             hint_override: None,
+            hint_mask: None,
             logging: true,
         }
     }
@@ -191,7 +194,15 @@ impl DependencyProvider for Prov<'_> {
         let out = if n.missing {
             None
         } else {
-            let hint = self.hint_override.as_ref().unwrap_or(&n.hint);
+            let masked;
+            let hint = match (self.hint_mask, self.hint_override.as_ref()) {
+                (Some(m), _) => {
+                    masked = if m & (1u64 << (name.0 % 64)) != 0 { Hint::All } else { Hint::None };
+                    &masked
+                }
+                (None, Some(h)) => h,
+                (None, None) => &n.hint,
+            };
             Some(Candidates {
                 candidates: n.cands.iter().map(|&c| SolvableId(c)).collect(),
                 favored: n.favored.map(SolvableId),
